@@ -1,25 +1,35 @@
 (* C18 — the control loop cannot be wedged by bursts of reports or rule changes.
-   The full property is FALSE on go-upf (finding sig=evt-sr-cycle): C18_wedge_refuted exhibits a reachable state
-   in which the event loop and the periodic-report server block each other for ever.  What is proved: the exact
-   characterisation of that state, its permanence, and progress below the two queue capacities (PARTIAL: fairness
-   of the Go scheduler is assumed, liveness beyond 'the blocked send is enabled' is not modelled).
-   Capacities and blocking modes come from the source on every run (ConstsGen, ConcGen, PerioConcGen). *)
+   Code as it is now (after fix "periodic server: unbounded event queue"): the event loop posts its timer events into an
+   UNBOUNDED FIFO (put never blocks), so the circular wait of the old code cannot form.  Proved over the two-queue model
+   (Wedge2): the loop is never blocked posting, its turn completes in exactly l_pending steps of its own, no state is a
+   deadlock (either everything has been served or one of the two servers can move), every server step lowers a work
+   measure.  PARTIAL only in that fairness of the Go scheduler is assumed.  The OLD code (bounded event channel) is kept
+   as model Wedge: its wedge is reachable (C18_old_code_wedge_reachable) - the regression witness.
+   Blocking modes and capacities come from the source on every run (ConstsGen, ConcGen, PerioConcGen). *)
 From Coq Require Import String List NArith Bool.
-From GoUpf Require Import ConstsGen ConcGen PerioConcGen Conc Wedge WedgeProofs.
+From GoUpf Require Import ConstsGen ConcGen PerioConcGen Conc.
+From GoUpf Require Wedge WedgeProofs Wedge2 Wedge2Proofs.
 Import ListNotations.
 Local Open Scope N_scope.
 
-(* the model's assumptions about the code, recomputed from the generated tables: the event loop posts timer
-   events with PLAIN blocking sends, the periodic server posts session reports through NotifySessReport whose
-   send is a select on srCh / done (blocking while the server runs), the ticker goroutine posts inside a select that
-   also waits for its stop channel (since fix 3 of C17: it no longer blocks a stopping server), stopTicker hands over
-   on an unbuffered channel *)
+Definition has2 (t : list (string * string)) (x : string * string) : bool :=
+  existsb (fun y => (String.eqb (fst x) (fst y) && String.eqb (snd x) (snd y))%bool) t.
+
+(* the model's assumptions about the code, recomputed from the generated tables:
+   - no function of the periodic server SENDS on a channel except stopTicker's hand-over on the stop channel;
+   - AddPeriodReportTimer / DelPeriodReportTimer / Close / the ticker goroutine post through eventQueue.put;
+   - put calls nothing but the queue's mutex, Signal and append (no Wait, no channel operation): it cannot wait for the
+     consumer; the consumer (get) is the one that waits;
+   - the periodic server hands session reports to PfcpServer.NotifySessReport, whose send is a select on srCh / done
+     (blocking while the PFCP server runs) *)
 Definition blocking_modes_as_modelled : bool :=
-  let has x := existsb (fun y => match x, y with (a, b, c), (a', b', c') =>
-                  (String.eqb a a' && String.eqb b b' && String.eqb c c')%bool end) perio_chanops in
-  (has ("Server.AddPeriodReportTimer", "Server.evtCh", "send") && has ("Server.DelPeriodReportTimer", "Server.evtCh", "send")
-   && has ("PERIOGroup.newTicker$1", "local.evtCh", "send-select") && has ("PERIOGroup.stopTicker", "PERIOGroup.stopCh", "send")
-   && has ("Server.Serve", "Server.evtCh", "recv")
+  (forallb (fun y => match y with (f, ch, m) =>
+      negb (String.eqb m "send" || String.eqb m "send-select") || (String.eqb f "PERIOGroup.stopTicker" && String.eqb ch "PERIOGroup.stopCh") end) perio_chanops
+   && has2 perio_calls ("Server.AddPeriodReportTimer", "eventQueue.put") && has2 perio_calls ("Server.DelPeriodReportTimer", "eventQueue.put")
+   && has2 perio_calls ("Server.Close", "eventQueue.put") && has2 perio_calls ("PERIOGroup.newTicker$1", "eventQueue.put")
+   && forallb (fun y => negb (String.eqb (fst y) "eventQueue.put") || existsb (String.eqb (snd y)) ["?.Lock"; "?.Unlock"; "?.Signal"; "append"]) perio_calls
+   && has2 perio_calls ("eventQueue.get", "?.Wait") && has2 perio_calls ("Server.Serve", "eventQueue.get")
+   && has2 perio_calls ("Server.Serve", "?.NotifySessReport")
    && existsb (fun y => match y with (a, b, c) => (String.eqb a "PfcpServer.NotifySessReport" && String.eqb b "PfcpServer.srCh"
                                                      && String.eqb c "send-select")%bool end) offloop_chanops)%string%bool.
 
@@ -33,7 +43,7 @@ Definition has3 (t : list (string * string * string)) (x : string * string * str
   existsb (fun y => match x, y with (a, b, c), (a', b', c') => (String.eqb a a' && String.eqb b b' && String.eqb c c')%bool end) t.
 Definition capacities_as_modelled : bool :=
   (has3 chan_makes ("NewPfcpServer", "rcvCh", "RECEIVE_CHANNEL_LEN") && has3 chan_makes ("NewPfcpServer", "srCh", "REPORT_CHANNEL_LEN")
-   && has3 chan_makes ("NewPfcpServer", "trToCh", "TRANS_TIMEOUT_CHANNEL_LEN") && has3 chan_makes ("OpenServer", "evtCh", "EVENT_CHANNEL_LEN")
+   && has3 chan_makes ("NewPfcpServer", "trToCh", "TRANS_TIMEOUT_CHANNEL_LEN")
    && has3 chan_makes ("Push", "s.q[pdrid]", "s.qlen"))%string%bool.
 Theorem C18_capacities : capacities_as_modelled = true.
 Proof. vm_compute. reflexivity. Qed.
@@ -49,26 +59,44 @@ Theorem C18_loop_sends_cannot_block : loop_sends_ok = true.
 Proof. vm_compute. reflexivity. Qed.
 Print Assumptions C18_loop_sends_cannot_block.
 
-(* while both servers are inside their critical sections, neither can move iff both queues are full *)
-Theorem C18_deadlock_characterisation : forall w,
-  0 < l_pending w -> 0 < p_pending w -> evt w <= cap_evt -> sr w <= cap_sr ->
-  ((wstep w LSend = None /\ wstep w PSend = None) <-> wedged w = true).
-Proof. exact deadlock_characterisation. Qed.
-Print Assumptions C18_deadlock_characterisation.
+(* ---- the code as it is: Wedge2 *)
+Import Wedge2.
 
-(* such a state is permanent: no action of the loop, the periodic server or any ticker is enabled, ever *)
-Theorem C18_wedged_forever : forall l w, wedged w = true -> wrun w l = w.
-Proof. exact wedged_run. Qed.
-Print Assumptions C18_wedged_forever.
+(* the loop is never blocked posting a timer event, whatever the queues hold *)
+Theorem C18_loop_post_never_blocks : forall w, 0 < l_pending w -> qstep w LPost <> None.
+Proof. exact Wedge2Proofs.loop_post_never_blocks. Qed.
+Print Assumptions C18_loop_post_never_blocks.
 
-(* progress below the thresholds *)
-Theorem C18_progress_partial_evt : forall w, room_inv w -> wedged w = false /\ (0 < l_pending w -> wstep w LSend <> None).
-Proof. intros w H. split; [apply not_wedged_with_room; exact H | apply loop_never_blocked; exact H]. Qed.
-Theorem C18_progress_partial_sr : forall w, room_inv_sr w -> wedged w = false.
-Proof. exact not_wedged_with_room_sr. Qed.
-Print Assumptions C18_progress_partial_sr.
+(* so a turn that touches k URRs completes in exactly k steps of the loop, however full the report queue is and
+   whatever the periodic server is waiting for *)
+Theorem C18_turn_completes : forall w, l_pending (qrun w (repeat LPost (N.to_nat (l_pending w)))) = 0.
+Proof. exact Wedge2Proofs.turn_completes. Qed.
+Print Assumptions C18_turn_completes.
 
-(* the full statement is false: a wedge is reachable (one tick over cap_sr+1 sessions, one turn over cap_evt+1 URRs) *)
-Theorem C18_wedge_refuted : wedged (wrun w_init wedge_witness) = true.
-Proof. exact wedge_reachable. Qed.
-Print Assumptions C18_wedge_refuted.
+(* no reachable state is a deadlock: either everything has been served, or the loop or the periodic server can move *)
+Theorem C18_no_deadlock : forall l, let w := qrun q_init l in quiescent w = false -> server_can_move w = true.
+Proof. intros l w. apply Wedge2Proofs.no_deadlock. apply Wedge2Proofs.qrun_inv. unfold Wedge2Proofs.QInv. cbn. apply N.le_refl. Qed.
+Print Assumptions C18_no_deadlock.
+
+(* and every step of a server lowers the remaining work (4 per pending post, 3 per queued event, 2 per pending report,
+   1 per queued report): without new requests and ticks the system reaches quiescence *)
+Theorem C18_server_steps_lower_work : forall w a w', ticks w <= evt w -> qstep w a = Some w' ->
+  a <> TTick -> (forall k, a <> LStartTurn k) -> (forall m, a <> PTakeTick m) -> work w' < work w.
+Proof. exact Wedge2Proofs.server_step_lowers_work. Qed.
+Print Assumptions C18_server_steps_lower_work.
+
+(* the history that wedged the old code now runs to completion *)
+Example C18_old_wedge_history_completes :
+  let w := qrun q_init ([TTick; PTakeTick (cap_sr + 1)] ++ repeat PSend (N.to_nat cap_sr) ++ [LStartTurn 600]
+                        ++ repeat LPost 600 ++ [PSend; LDrain; PSend]) in
+  l_pending w = 0 /\ p_pending w = 0 /\ evt w = 600.
+Proof. exact Wedge2Proofs.old_wedge_history_now_completes. Qed.
+
+(* ---- the OLD code (event channel of 512): the wedge was reachable and permanent - kept as the regression witness *)
+Theorem C18_old_code_wedge_reachable : Wedge.wedged (Wedge.wrun Wedge.w_init WedgeProofs.wedge_witness) = true.
+Proof. exact WedgeProofs.wedge_reachable. Qed.
+Print Assumptions C18_old_code_wedge_reachable.
+
+Theorem C18_old_code_wedged_forever : forall l w, Wedge.wedged w = true -> Wedge.wrun w l = w.
+Proof. exact WedgeProofs.wedged_run. Qed.
+Print Assumptions C18_old_code_wedged_forever.
